@@ -279,6 +279,8 @@ def _scale(v):
 def _tofloat(x):
     if isinstance(x, (str, bool, type(None))):
         return x
+    if isinstance(x, dict):
+        return {k: _tofloat(v) for k, v in x.items()}
     if isinstance(x, (int, np.integer)):
         return int(x)
     if isinstance(x, (float, np.floating)):
